@@ -1,4 +1,4 @@
-use chrono::{DateTime, Duration, NaiveDateTime, Utc};
+use chrono::Utc;
 
 ///
 /// current time in milliseconds since unix epoch
@@ -12,17 +12,15 @@ pub fn now() -> i64 {
     dt.timestamp_millis()
 }
 
+const DAY_IN_MS: i64 = 24 * 60 * 60 * 1000;
+
 //returns the date without time
+//dates come from peers too: any value must be handled (chrono panics outside of its range)
 pub fn date(date_time: i64) -> i64 {
-    let date = DateTime::from_timestamp_millis(date_time).unwrap();
-    let ds: NaiveDateTime = date.date_naive().and_hms_opt(0, 0, 0).unwrap();
-    ds.and_utc().timestamp_millis()
+    date_time.div_euclid(DAY_IN_MS).saturating_mul(DAY_IN_MS)
 }
 
 //returns the next day without time
 pub fn date_next_day(date_time: i64) -> i64 {
-    let date = DateTime::from_timestamp_millis(date_time).unwrap();
-    let date = date + Duration::days(1);
-    let ds: NaiveDateTime = date.date_naive().and_hms_opt(0, 0, 0).unwrap();
-    ds.and_utc().timestamp_millis()
+    date(date_time).saturating_add(DAY_IN_MS)
 }
